@@ -96,6 +96,15 @@ func genNearMiss(t *rapid.T) NearMiss {
 		return NearMiss{Text: wrap(e + ":" + rest), Class: class, From: canon}
 	case "oversized-epoch":
 		e := rapid.SampledFrom([]string{"9223372036854775808", "18446744073709551615", "18446744073709551616", "99999999999999999999", "123456789012345678901234567890"}).Draw(t, "e")
+		if rapid.Bool().Draw(t, "randomBig") {
+			// 20..26 random digits (first digit non-zero): always beyond MaxInt64
+			n := rapid.IntRange(20, 26).Draw(t, "en")
+			b := []byte{byte('1' + rapid.IntRange(0, 8).Draw(t, "e0"))}
+			for len(b) < n {
+				b = append(b, byte('0'+rapid.IntRange(0, 9).Draw(t, "ed")))
+			}
+			e = string(b)
+		}
 		return NearMiss{Text: wrap(e + ":" + rest), Class: class, From: canon}
 	case "embedded-whitespace":
 		if len(canon) < 2 {
